@@ -230,6 +230,41 @@ def main(argv):
                 out.write(json.dumps(rec) + "\n")
                 out.flush()
         return 0
+    if argv[0] == "retest":
+        # re-run the survivors of an earlier sweep against the current checks
+        inp, outp = argv[1], argv[2]
+        props = argv[3].split(",")
+        scale = float(argv[4]) if len(argv) > 4 else 0.3
+        recs = [json.loads(l) for l in open(inp)]
+        by_file = {}
+        with open(outp, "a") as out:
+            for r in recs:
+                if r.get("status") != "SURVIVED":
+                    continue
+                rel = r["file"]
+                if rel not in by_file:
+                    by_file[rel] = mutants(os.path.join("/repo", rel))
+                src, ms = by_file[rel]
+                cand = [m for m in ms if m["line"] == r["line"] and m["kind"] == r["kind"] and m["desc"] == r["desc"]]
+                if not cand:
+                    r["status"] = "gone (source changed)"
+                    out.write(json.dumps(r) + "\n")
+                    continue
+                m = cand[0]
+                d = scratch()
+                try:
+                    open(os.path.join(d, rel), "w").write(apply(src, m))
+                    if not suite(d):
+                        r["status"] = "killed-by-suite"
+                    else:
+                        res = run_checks(d, props, scale)
+                        r["checks"] = res
+                        r["status"] = "killed-by-" + res["by"] if "by" in res else ("harness:" + res["harness"] if "harness" in res else "SURVIVED")
+                finally:
+                    shutil.rmtree(d, ignore_errors=True)
+                out.write(json.dumps(r) + "\n")
+                out.flush()
+        return 0
     print(__doc__)
     return 2
 
